@@ -45,11 +45,15 @@ class Plain(PoolDecorator):
 def template(draw):
     parts = draw(st.lists(st.tuples(st.one_of(st.sampled_from(KNOWN), st.sampled_from(KNOWN), st.just("target"),
                                               st.just("consumption"), st.sampled_from(UNKNOWN)),
-                                    st.sampled_from(["s", "s", ".2f", "r", "d"])), min_size=0, max_size=5))
+                                    st.sampled_from(["s", "s", ".2f", "r", "d", "x", "c", "#o"])), min_size=0, max_size=5))
     text = draw(st.sampled_from(["", "demand ", "x=", "100%% "]))
     fields = []
+    names_unknown = any(name in UNKNOWN for name, _code in parts)
     for name, code in parts:
-        if name == "target" and code in (".2f", "d"):
+        # conversions that do not fit a field's kind of value (integer-only codes, a number code for the target) make the
+        # unchanged constructor fail too - the statement is silent about them, so they are only generated next to an unknown
+        # field, where rejection is required in any case (formatting stops at the first problem: the unknown name may hide behind)
+        if not names_unknown and (code in ("x", "c", "#o") or (name == "target" and code in (".2f", "d"))):
             code = "s"
         fields.append([name, code])
     return {"prefix": text, "fields": fields}
@@ -174,6 +178,7 @@ def run_case(spec) -> Result:
         top = objs[0] if objs else pool
         transparent = all(L["k"] in ("plain", "logger") for L in layers)
         writes = 0
+        retained = []
         for i, o in enumerate(spec["ops"]):
             tag = f"op{i}:{o[0]} stack={[L['k'] for L in layers]}"
             if o[0] == "state":
@@ -227,6 +232,10 @@ def run_case(spec) -> Result:
                             res.fail("logger-field-" + k, f"{tag}: record carries {k}={args.get(k)!r}, target had {b[k]!r} before the write")
                     if rec["target_demand_at_emit"] != b["demand"] or rec["pool_writes_at_emit"] != nwrites:
                         res.fail("logger-after-write", f"{tag}: at emission the target already had demand {rec['target_demand_at_emit']!r} (before: {b['demand']!r}); pool writes {rec['pool_writes_at_emit']} vs {nwrites}")
+                    if all(k in ("plain", "logger") for k in above):
+                        retained.append((rec["record"], dict(b, value=v), tag))
+                    else:
+                        retained.append((rec["record"], dict(b), tag))
                     try:
                         with warnings.catch_warnings():
                             warnings.simplefilter("ignore")
@@ -241,6 +250,14 @@ def run_case(spec) -> Result:
                         res.fail("passthrough-" + attr, f"{tag}: layer {li} ({layers[li]['k']}) reports {attr}={got!r}, pool has {want!r}")
             if res.violations:
                 return res
+        # records may be kept by a handler and only formatted later (logging.handlers.MemoryHandler): each must still carry what
+        # it carried when it was emitted, whatever was written afterwards
+        for record, want, tag in retained:
+            got = record.args if isinstance(record.args, dict) else {}
+            stale = {k: (got.get(k), w) for k, w in want.items() if k not in got or got[k] != w}
+            if stale:
+                res.fail("logger-record-changed-later", f"{tag}: the record emitted for this write was changed by later writes: field -> (now, at emission) {stale}")
+                break
         n_log = sum(1 for L in layers if L["k"] == "logger")
         res.cls("depth:%d" % len(layers), "loggers:%d" % n_log, "transparent:" + str(transparent),
                 "root-logger:" + str(any(L["k"] == "logger" and L["name"] in ("", "root") for L in layers)))
